@@ -68,7 +68,7 @@ func (w *world) opOpenConn(in, usefd bool, epi int) *node {
 	// the new connection scope itself (usage 0) and the normal / allow-listed scopes
 	ownOK, ownRes := room(&w.cfg.conn, vec{}, delta, always)
 	posN, resN := w.led.firstFull(exp, []int{sTransient, sSystem}, delta, always)
-	posA, resA := w.led.firstFull(exp, []int{sATransient, sASystem}, delta, always)
+	posA, _ := w.led.firstFull(exp, []int{sATransient, sASystem}, delta, always)
 	allowCapable := e.ip.IsValid() && e.allow != 0
 	normalOK := ownOK && posN < 0
 	allowOK := allowCapable && ownOK && posA < 0
@@ -163,7 +163,7 @@ func (w *world) opOpenConn(in, usefd bool, epi int) *node {
 		w.o.Probe("allowlisted-admission")
 	}
 
-	ctx := auditCtx{op: "openconn", desc: desc, refused: !admitted, view: []int{sSystem, sTransient}}
+	ctx := auditCtx{op: "openconn", desc: desc, refused: !admitted, view: []int{sSystem, sTransient}, focus: n}
 	if admitted && allowCapable {
 		other := plAllow
 		if n.place == plAllow {
@@ -202,7 +202,7 @@ func (w *world) opSetPeer(n *node, p int) {
 		if err == nil {
 			w.violate("C03/reparent-twice-accepted/setpeer", "%s accepted although the connection is already attached to P%d", desc, n.peer)
 		}
-		w.audit(auditCtx{op: "setpeer", desc: desc, refused: true, reparent: true})
+		w.audit(auditCtx{op: "setpeer", desc: desc, refused: true, reparent: true, focus: n})
 		return
 	}
 	stat := w.led.total(n)
@@ -221,7 +221,7 @@ func (w *world) opSetPeer(n *node, p int) {
 	w.opTag("sp", admitted)
 	w.o.Logf("%s [holds %v, allow-listed=%v transfer=%v] -> %v", desc, stat, n.place == plAllow, transfer, errStr(err))
 
-	ctx := auditCtx{op: "setpeer", desc: desc, refused: !admitted, reparent: true, view: []int{sSystem, sTransient, peerIdx(p)}}
+	ctx := auditCtx{op: "setpeer", desc: desc, refused: !admitted, reparent: true, view: []int{sSystem, sTransient, peerIdx(p)}, focus: n}
 	if admitted {
 		w.changed++
 		switch {
@@ -262,7 +262,8 @@ func (w *world) opSetPeer(n *node, p int) {
 	// Known illegal state (finding F5): charged nowhere.
 	var alts []hypothesis
 	if sysOK && transOK {
-		alts = append(alts, hypothesis{apply: func(n *node) { n.place = plNormal }, note: "the connection was transferred to the normal scopes before the peer scope refused (W3)"})
+		alts = append(alts, hypothesis{apply: func(n *node) { n.place = plNormal; w.o.Probe("allowlisted-transfer-then-peer-refused") },
+			note: "the connection was transferred to the normal scopes before the peer scope refused (W3)"})
 	}
 	alts = append(alts, hypothesis{
 		apply: func(n *node) { n.place = plNowhere; n.poisoned = true },
@@ -319,7 +320,7 @@ func (w *world) opOpenStream(p int, in bool) *node {
 			w.o.Probe(edgeProbe(1 + pos))
 		}
 	}
-	w.audit(auditCtx{op: "openstream", desc: desc, refused: !admitted, view: []int{sSystem, sTransient, peerIdx(p)}})
+	w.audit(auditCtx{op: "openstream", desc: desc, refused: !admitted, view: []int{sSystem, sTransient, peerIdx(p)}, focus: n})
 	return n
 }
 
@@ -334,7 +335,7 @@ func (w *world) opSetProtocol(n *node, q int) {
 		if err == nil {
 			w.violate("C03/reparent-twice-accepted/setprotocol", "%s accepted although the stream is already attached to proto%d", desc, n.proto)
 		}
-		w.audit(auditCtx{op: "setprotocol", desc: desc, refused: true, reparent: true})
+		w.audit(auditCtx{op: "setprotocol", desc: desc, refused: true, reparent: true, focus: n})
 		return
 	}
 	stat := w.led.total(n)
@@ -346,7 +347,7 @@ func (w *world) opSetProtocol(n *node, q int) {
 	admitted := err == nil
 	w.opTag("sq", admitted)
 	w.o.Logf("%s [holds %v] -> %s", desc, stat, errStr(err))
-	ctx := auditCtx{op: "setprotocol", desc: desc, refused: !admitted, reparent: true, view: []int{sSystem, sTransient, protoIdx(q), peerIdx(n.peer)}}
+	ctx := auditCtx{op: "setprotocol", desc: desc, refused: !admitted, reparent: true, view: []int{sSystem, sTransient, protoIdx(q), peerIdx(n.peer)}, focus: n}
 	if admitted {
 		w.changed++
 		if pos >= 0 {
@@ -376,7 +377,7 @@ func (w *world) opSetService(n *node, s int) {
 		if err == nil {
 			w.violate("C03/reparent-twice-accepted/setservice", "%s accepted although the stream has service %d / protocol %d", desc, n.svc, n.proto)
 		}
-		w.audit(auditCtx{op: "setservice", desc: desc, refused: true, reparent: true})
+		w.audit(auditCtx{op: "setservice", desc: desc, refused: true, reparent: true, focus: n})
 		return
 	}
 	stat := w.led.total(n)
@@ -388,7 +389,7 @@ func (w *world) opSetService(n *node, s int) {
 	admitted := err == nil
 	w.opTag("ss", admitted)
 	w.o.Logf("%s [holds %v] -> %s", desc, stat, errStr(err))
-	ctx := auditCtx{op: "setservice", desc: desc, refused: !admitted, reparent: true, view: []int{sSystem, svcIdx(s), protoIdx(n.proto), peerIdx(n.peer)}}
+	ctx := auditCtx{op: "setservice", desc: desc, refused: !admitted, reparent: true, view: []int{sSystem, svcIdx(s), protoIdx(n.proto), peerIdx(n.peer)}, focus: n}
 	if admitted {
 		w.changed++
 		if pos >= 0 {
@@ -445,7 +446,7 @@ func (w *world) opReserve(n *node, size int64, prio uint8) {
 	admitted := err == nil
 	w.opTag("rm", admitted)
 	w.o.Logf("%s -> %s", desc, errStr(err))
-	ctx := auditCtx{op: "reservememory", desc: desc, refused: !admitted, view: w.viewOf(n)}
+	ctx := auditCtx{op: "reservememory", desc: desc, refused: !admitted, view: w.viewOf(n), focus: n}
 	if !intact {
 		// W7: the scope or one of its owners is closed
 		w.o.Probe("reserve-on-closed-scope")
@@ -509,7 +510,7 @@ func (w *world) opRelease(n *node, size int64) {
 	if size > 0 {
 		w.changed++
 	}
-	w.audit(auditCtx{op: "releasememory", desc: desc, view: w.viewOf(n)})
+	w.audit(auditCtx{op: "releasememory", desc: desc, view: w.viewOf(n), focus: n})
 }
 
 // BeginSpan / Done --------------------------------------------------------------------------------
@@ -533,7 +534,7 @@ func (w *world) opBeginSpan(n *node) *node {
 		k.name = fmt.Sprintf("%s/sp%d", n.name, k.id)
 		n.kids = append(n.kids, k)
 	}
-	w.audit(auditCtx{op: "beginspan", desc: desc, refused: err != nil})
+	w.audit(auditCtx{op: "beginspan", desc: desc, refused: err != nil, focus: n})
 	return k
 }
 
@@ -558,7 +559,7 @@ func (w *world) opDone(n *node) {
 			w.changed++
 		}
 	}
-	w.audit(auditCtx{op: "done", desc: desc, view: w.viewOf(n)})
+	w.audit(auditCtx{op: "done", desc: desc, view: w.viewOf(n), focus: n})
 	if n.kind == kConn {
 		if over := w.cfg.groupsOver(w.led.openPlainIPs()); len(over) > 0 {
 			w.violate("C03/subnet-cap-exceeded", "after %s: %v", desc, over)
